@@ -1027,7 +1027,7 @@ void fraction_free_gauss_jordan_elimination(const DenseMatrix &A,
 
     B.m_ = A.m_;
 
-    for (i = 0; i < col; i++) {
+    for (i = 0; i < std::min(row, col); i++) {
         if (i > 0)
             d = B.m_[i * col - col + i - 1];
         for (j = 0; j < row; j++)
